@@ -25,11 +25,18 @@
   * credited exactly once, in full, to the owner, not earlier
                                           `refund_when_due`, `refund_at_most_once`, `refund_only_when_due`,
                                           `refund_credits_owner`
+  * the whole sentence end to end ........ `unstake_to_refund` (incl. the forced release at self power 0),
+                                          `jailed_to_refund`, `refund_credit_at_due_block`, `refund_balance_formula`
+    (extra hypothesis `NoEndPanic g ops`: no EndBlock of the history answers with a Go panic — a panic
+    crashes the node; the model then skips the refund pass of that block)
   The code iterates the *committed* unbonding ledger, so a stake released in block H with refund height
   r is first examined at the EndBlock of block H+1: it is credited at height max(r, H+1) — `refund_when_due`
   is stated for a stake that is in the committed ledger, which is exactly that.
 -/
 import RigoProofs.C12EndBlock
+import RigoProofs.C12Trace2
+import RigoProofs.C12Balance
+import RigoProofs.TxSteps
 import RigoProofs.C11Cex
 
 namespace Rigo.C12
@@ -263,6 +270,176 @@ theorem endBlock_runs_refund_pass (s : St) (b : BlockCtx) (hb : s.blk = some b) 
   obtain ⟨hcore, s3, s4, h3, h4, h5⟩ := endBlock_ok_core hb hp
   exact ⟨s3, s4, h3, h4, h5, by rw [hcore, unfreeze_core h4, h3]⟩
 
+/-! ### end to end: from the release to the refund -/
+
+/-- The whole sentence as ONE trace theorem.  Let the history be `pre ++ [deliver tx] ++ post`, well-phased,
+    with unique staking hashes and no panicking EndBlock.  Suppose `deliver tx` is an unstaking transaction
+    answered with code 0 in the block of height `H = b.height`, with unbonding period
+    `L = active.lazyRewardBlocks` in force.  Then the transaction was signed by the owner of the named stake,
+    and for every released stake `x` (the named one and, if the validator's self power dropped to 0, every
+    force-released one) with a non-zero key, with `M = max (H+L) (H+1)`, the state after the whole history is
+    in exactly one of two situations:
+    * (a) *unbonding*: no block of height ≥ `M` has ended yet (`lastHeight < M`, and we are not past the
+      EndBlock of block `M`); `x` sits in the unbonding ledger, unchanged, with refund height `H+L` —
+      whatever governance did to the period meanwhile —, the refund log has no entry for it, it is bonded nowhere;
+    * (c) *refunded*: the EndBlock of block `M` has run; the log holds exactly one entry for it,
+      `(hash, owner, power, M)` — written by that EndBlock, hence no earlier and to the owner —, and it is in
+      neither ledger.  Since this holds for every continuation `post`, no second entry ever appears.
+    (b) That EndBlock credits `powerToAmount power` to the owner: `refund_credit_at_due_block`. -/
+theorem unstake_to_refund (g : Genesis) (hg : GenesisOK g) (pre post : List Op) (tx : TxIn) (b : BlockCtx) (p : Phase)
+    (h : History (pre ++ .deliver tx :: post)) (hp : phaseRun .idle (pre ++ .deliver tx :: post) = some p)
+    (hu : UniqueStakeKeys g (pre ++ .deliver tx :: post)) (hnp : NoEndPanic g (pre ++ .deliver tx :: post))
+    (hb : (exec (initChain g) pre).blk = some b)
+    (hok : (handleTx (exec (initChain g) pre) true b.height tx).2.code = 0) (hty : tx.type = TRX_UNSTAKING) :
+    tx.sigOk = true ∧ ∃ d hash st, tx.payload = .unstaking hash ∧
+      (exec (initChain g) pre).delegs.fin[ledgerKey tx.to]? = some d ∧ d.findStake hash = some st ∧ st.owner = tx.from_ ∧
+      ∀ x ∈ releasedBy d st hash, skey x ≠ zeroKey →
+        let s := exec (initChain g) (pre ++ .deliver tx :: post)
+        let r := b.height + (exec (initChain g) pre).active.lazyRewardBlocks
+        let M := max r (b.height + 1)
+        let notBonded := ¬ ∃ (kd : String) (d' : Delegatee) (y : Stake), s.delegs.fin[kd]? = some d' ∧ y ∈ d'.stakes ∧ skey y = skey x
+        (s.lastHeight < M ∧ ¬ (p = .ended ∧ s.blk.map (·.height) = some M) ∧
+          s.frozen.fin[skey x]? = some { x with refund := r } ∧
+          s.ghost.refunds.filter (fun e => ledgerKey e.1 == skey x) = [] ∧ notBonded) ∨
+        ((M ≤ s.lastHeight ∨ (p = .ended ∧ s.blk.map (·.height) = some M)) ∧
+          s.ghost.refunds.filter (fun e => ledgerKey e.1 == skey x) = [(x.hash, x.owner, x.power, M)] ∧
+          s.frozen.fin[skey x]? = none ∧ notBonded) := by
+  -- hypotheses restricted to the prefix `pre`
+  have hpre : History pre ∧ ∃ q, phaseRun .idle pre = some q ∧ UniqueStakeKeys g pre := by
+    have e : pre ++ .deliver tx :: post = pre ++ (.deliver tx :: post) := rfl
+    refine ⟨fun o ho => h o (by simp [ho]), ?_⟩
+    have hq : ∀ (l : List Op) (q : Phase), phaseRun q l = none ∨ ∃ q', phaseRun q l = some q' := by
+      intro l q; cases phaseRun q l <;> simp
+    have happ : ∀ (a c : List Op) (q : Phase), phaseRun q (a ++ c) = (phaseRun q a).bind (fun q' => phaseRun q' c) := by
+      intro a
+      induction a with
+      | nil => intro c q; simp [phaseRun]
+      | cons x a ih =>
+        intro c q
+        simp only [List.cons_append, phaseRun]
+        cases phaseStep q x with
+        | none => rfl
+        | some q' => exact ih c q'
+    rw [happ] at hp
+    cases hq' : phaseRun .idle pre with
+    | none => rw [hq'] at hp; cases hp
+    | some q =>
+      refine ⟨q, rfl, ?_⟩
+      unfold UniqueStakeKeys usedKeys at hu ⊢
+      rw [stakedLog_append, List.map_append] at hu
+      exact hu.sublist (List.Sublist.cons_cons _ (List.sublist_append_left _ _))
+  obtain ⟨hist0, q, hq, hu0⟩ := hpre
+  obtain ⟨hsig, d, hash, st, hpay, hd, hst, hown, hH, hrel⟩ := unstake_trigger hg pre tx b q hist0 hq hu0 hb hok hty
+  refine ⟨hsig, d, hash, st, hpay, hd, hst, hown, ?_⟩
+  intro x hx hz
+  obtain ⟨hbk, hin⟩ := hrel x hx hz
+  have htr := release_to_refund hg pre (.deliver tx) (skey x) _ b.height hz hbk hin hH post h p hp hu hnp
+  have hl := history_life hg _ h p hp hu
+  have hinv := history_heightInv g _ (fun o ho => (h o ho).1)
+  have := htr.summary hl hinv hz (by simp only []; omega)
+  exact this
+
+/-- the same for jailing (too many missed blocks): a delegatee `d` that is in the ledger before a BeginBlock
+    `hd` and gone after it was jailed by it.  Each of its stakes `x` (non-zero key) was then either forfeited
+    by a slashing in that same BeginBlock (`ForfeitPath`), or force-released: it is in the unbonding ledger as
+    `xr` — same owner, target, hash, start; power not larger (smaller only if slashed in this block); refund
+    height `H + L` — and from there on `xr` goes through exactly the life of `unstake_to_refund`:
+    unbonding and untouched until the EndBlock of block `max (H+L) (H+1)`, refunded once there. -/
+theorem jailed_to_refund (g : Genesis) (hg : GenesisOK g) (pre post : List Op) (hd : Header) (p : Phase)
+    (h : History (pre ++ .begin_ hd :: post)) (hp : phaseRun .idle (pre ++ .begin_ hd :: post) = some p)
+    (hu : UniqueStakeKeys g (pre ++ .begin_ hd :: post)) (hnp : NoEndPanic g (pre ++ .begin_ hd :: post))
+    (K : String) (d : Delegatee) (x : Stake)
+    (hdK : (exec (initChain g) pre).delegs.fin[K]? = some d) (hx : x ∈ d.stakes) (hz : skey x ≠ zeroKey)
+    (hgone : (exec (initChain g) (pre ++ [.begin_ hd])).delegs.fin[K]? = none) :
+    ForfeitPath hd { (exec (initChain g) pre).core with height := some hd.height }
+        (exec (initChain g) (pre ++ [.begin_ hd])).core (skey x) ∨
+    ∃ xr, SameOrigin x xr ∧ xr.power ≤ x.power ∧
+      xr.refund = hd.height + (exec (initChain g) pre).active.lazyRewardBlocks ∧
+      let s := exec (initChain g) (pre ++ .begin_ hd :: post)
+      let M := max xr.refund (hd.height + 1)
+      let notBonded := ¬ ∃ (kd : String) (d' : Delegatee) (y : Stake), s.delegs.fin[kd]? = some d' ∧ y ∈ d'.stakes ∧ skey y = skey x
+      (s.lastHeight < M ∧ ¬ (p = .ended ∧ s.blk.map (·.height) = some M) ∧ s.frozen.fin[skey x]? = some xr ∧
+        s.ghost.refunds.filter (fun e => ledgerKey e.1 == skey x) = [] ∧ notBonded) ∨
+      ((M ≤ s.lastHeight ∨ (p = .ended ∧ s.blk.map (·.height) = some M)) ∧
+        s.ghost.refunds.filter (fun e => ledgerKey e.1 == skey x) = [(xr.hash, xr.owner, xr.power, M)] ∧
+        s.frozen.fin[skey x]? = none ∧ notBonded) := by
+  have happ : ∀ (a c : List Op) (q : Phase), phaseRun q (a ++ c) = (phaseRun q a).bind (fun q' => phaseRun q' c) := by
+    intro a
+    induction a with
+    | nil => intro c q; simp [phaseRun]
+    | cons y a ih =>
+      intro c q
+      simp only [List.cons_append, phaseRun]
+      cases phaseStep q y with
+      | none => rfl
+      | some q' => exact ih c q'
+  have hist0 : History pre := fun o ho => h o (by simp [ho])
+  have hp' := hp
+  rw [happ] at hp'
+  cases hq : phaseRun .idle pre with
+  | none => rw [hq] at hp'; cases hp'
+  | some q =>
+    rw [hq] at hp'
+    simp only [Option.bind_some, phaseRun] at hp'
+    have hph : phaseStep q (.begin_ hd) = some .inBlock := by
+      cases q <;> simp [phaseStep] at hp' ⊢
+    have hu0 : UniqueStakeKeys g pre := by
+      unfold UniqueStakeKeys usedKeys at hu ⊢
+      rw [stakedLog_append, List.map_append] at hu
+      exact hu.sublist (List.Sublist.cons_cons _ (List.sublist_append_left _ _))
+    obtain ⟨hH, hcase⟩ := jail_trigger hg pre hd q hist0 hq hph hu0 K d x hdK hx hz hgone
+    rcases hcase with hf | ⟨xr, hin, ho, hpw, hr⟩
+    · exact Or.inl hf
+    · right
+      refine ⟨xr, ho, hpw, hr, ?_⟩
+      have htr := release_to_refund hg pre (.begin_ hd) (skey x) xr hd.height hz ⟨K, d, x, hdK, hx, rfl⟩ hin hH post h p hp hu hnp
+      have hl := history_life hg _ h p hp hu
+      have hinv := history_heightInv g _ (fun o ho => (h o ho).1)
+      exact htr.summary hl hinv hz (by omega)
+
+/-- (b) of the sentence: when a well-phased history stands inside block `M` (before its EndBlock) and the stake
+    `x` released in block `H < M` is still tracked as unbonding and is due (`refund ≤ M`), then the EndBlock
+    of that block — if it does not panic — performs, among the `Reward` calls of its refund pass and in
+    ledger order, exactly one `Reward(x.owner, powerToAmount x.power)` for it (`creditAll`), and logs it. -/
+theorem refund_credit_at_due_block (g : Genesis) (hg : GenesisOK g) (ops : List Op) (h : History ops)
+    (hp : phaseRun .idle ops = some .inBlock) (hu : UniqueStakeKeys g ops) (b : BlockCtx)
+    (hb : (exec (initChain g) ops).blk = some b) (hpanic : (endBlock (exec (initChain g) ops)).2.panic = "")
+    (k : String) (x : Stake) (hk : k ≠ zeroKey) (hc : (exec (initChain g) ops).frozen.committed[k]? = some x)
+    (hdue : x.refund ≤ b.height) :
+    let s := exec (initChain g) ops
+    (∃ s3 s4 s'' l1 l2, s3.core = s.core ∧ unfreeze s3 b.height = .ok s4 ∧ (endBlock s).1.accts = s4.accts ∧
+      (s3.frozen.committed.toList.filter (due b.height)).map (·.2) = l1 ++ x :: l2 ∧
+      creditAll s3 (l1 ++ x :: l2) = some s'' ∧ s4.accts = s''.accts) ∧
+    (endBlock s).1.frozen.fin[k]? = none ∧
+    (endBlock s).1.ghost.refunds.filter (fun e => ledgerKey e.1 == k) = [(x.hash, x.owner, x.power, b.height)] := by
+  intro s
+  refine ⟨refund_pass_credits hb hpanic hc hdue, ?_⟩
+  obtain ⟨batch, h1, h2, _⟩ := refund_when_due g hg ops h hp hu b hb hpanic k x hk hc
+  obtain ⟨h3, h4⟩ := h2 hdue
+  refine ⟨h3, ?_⟩
+  rw [h1, List.filter_append, h4]
+  have hl := history_life hg ops h .inBlock hp hu
+  have hin := hl.inblock rfl k x hk (show s.core.fcommitted[k]? = some x from hc)
+  have := not_logged_of_ffin hl hk hin
+  show (s.core.refunds.filter _) ++ _ = _
+  rw [this]; rfl
+
+/-- closed balance formula: for every account key `K`, after an EndBlock (height `b.height`) that does not
+    panic, under the no-wrap bound,
+      balance after = balance before + (the block's fee sum if `K` is the proposer's key and fees are handed over)
+                      + Σ `powerToAmount power` over the committed unbonding stakes that are due
+                        (`refund ≤ b.height`) and whose owner's account key is `K`.
+    In particular nobody but the owners of due stakes (and the proposer) gains anything in EndBlock.
+    The account-key invariant comes from the C04/C05 prover's `AcctInv_reachable`. -/
+theorem refund_balance_formula (g : Genesis) (ops : List Op) (h : ∀ o ∈ ops, o.isInit = false) (b : BlockCtx)
+    (hb : (exec (initChain g) ops).blk = some b) (hpanic : (endBlock (exec (initChain g) ops)).2.panic = "") (K : String)
+    (hlt : balAt (exec (initChain g) ops).accts.fin K + feeTo b K +
+      refundsTo K (((exec (initChain g) ops).frozen.committed.toList.filter (due b.height)).map (·.2)) < two256) :
+    balAt (endBlock (exec (initChain g) ops)).1.accts.fin K =
+      balAt (exec (initChain g) ops).accts.fin K + feeTo b K +
+      refundsTo K (((exec (initChain g) ops).frozen.committed.toList.filter (due b.height)).map (·.2)) :=
+  endBlock_balance hb hpanic (AcctInv_reachable ⟨ops, h, rfl⟩).1 K hlt
+
 /-! ### the zero-key finding in C12's terms, and non-vacuity -/
 
 /-- Finding: for the all-zero key the property is false.  Both genesis validators release their genesis
@@ -303,6 +480,20 @@ example : phaseRun .idle (Cex.lifecycle.take 13) = some .inBlock ∧
     (endBlock (exec (initChain Cex.G) (Cex.lifecycle.take 13))).2.panic = "" ∧
     ((exec (initChain Cex.G) (Cex.lifecycle.take 13)).frozen.committed[Cex.H1]?).map (·.refund) = some 4 ∧
     (exec (initChain Cex.G) (Cex.lifecycle.take 13)).blk.map (·.height) = some 4 := by
+  decide +kernel
+
+/-- `unstake_to_refund` applies to `Cex.lifecycle` (the release is operation 6, in block 2, period 2, so
+    `M = 4`); the history ends after block 5, so its conclusion is the "refunded" alternative -/
+example : Cex.lifecycle = Cex.lifecycle.take 6 ++ .deliver (Cex.unstakeTx Cex.D Cex.A 1 Cex.H1) :: Cex.lifecycle.drop 7 := rfl
+
+example := unstake_to_refund Cex.G (by decide +kernel) (Cex.lifecycle.take 6) (Cex.lifecycle.drop 7)
+  (Cex.unstakeTx Cex.D Cex.A 1 Cex.H1) { height := 2 } .idle
+  (by decide +kernel) (by decide +kernel) (by decide +kernel) (by decide +kernel) (by decide +kernel)
+  (by decide +kernel) (by decide +kernel)
+
+/-- the balance formula on block 4 of `Cex.lifecycle`: D's balance grows by exactly 2 x 10^18 -/
+example : balAt (endBlock (exec (initChain Cex.G) (Cex.lifecycle.take 13))).1.accts.fin (ledgerKey Cex.D) =
+    balAt (exec (initChain Cex.G) (Cex.lifecycle.take 13)).accts.fin (ledgerKey Cex.D) + 0 + 2 * Cex.rigo := by
   decide +kernel
 
 end Rigo.C12
